@@ -6,7 +6,11 @@
 (* lookup, what the build definition observed (found()/origin/version,     *)
 (* state of the providing subproject), plus whether pkg-config was ever    *)
 (* asked about the name.  A case is accepted iff the observations equal    *)
-(* DepLookup!Run under one of the allowed readings of the open corner.     *)
+(* DepLookup!Run under one of the allowed readings of the open corners.    *)
+(* A case may have a second run (field r2): the same build directory       *)
+(* configured again with `meson setup --reconfigure` after wrap_mode /     *)
+(* force_fallback_for / the system changed; the specification carries the  *)
+(* persistent cache of run 1 over and judges run 2 the same way.           *)
 (*                                                                         *)
 (* JUDGE_MODE = "predict": no observations; prints, for the cases that may *)
 (* abort the configuration, the first aborting step (used only to lay      *)
@@ -21,10 +25,13 @@ VARIABLES i, done
 vars == <<i, done>>
 
 SeqToSet(s) == { s[j] : j \in 1..Len(s) }
+\* a pair of readings: <<open corner of nofallback, reuse of the persistent cache>>
+ReadingPairs == Readings \X Reuses
 ToCfg(c, r) == [sys |-> c.cfg.sys, prov |-> c.cfg.prov, style |-> c.cfg.style, subv |-> c.cfg.subv,
-                mainv |-> c.cfg.mainv, wm |-> c.cfg.wm, fff |-> SeqToSet(c.cfg.fff), pre |-> c.cfg.pre, nofb |-> r]
+                mainv |-> c.cfg.mainv, wm |-> c.cfg.wm, fff |-> SeqToSet(c.cfg.fff), pre |-> c.cfg.pre,
+                nofb |-> r[1], reuse |-> "fresh"]
 ToArgs(x) == [con |-> x.con, fb |-> x.fb, req |-> x.req, af |-> x.af]
-ArgsOf(c) == [j \in 1..Len(c.as) |-> ToArgs(c.as[j])]
+ArgsOfSeq(xs) == [j \in 1..Len(xs) |-> ToArgs(xs[j])]
 
 \* what the build definition can see of the state of S: a subproject that does not exist leaves no trace
 ObsSub(cfg, s) == IF s = "ok" THEN "ok"
@@ -33,15 +40,30 @@ ObsSub(cfg, s) == IF s = "ok" THEN "ok"
 Proj(cfg, o) == [kind |-> o.res.kind, v |-> o.res.v, sub |-> ObsSub(cfg, o.st.sub)]
 ObsOf(x) == [kind |-> x.kind, v |-> x.v, sub |-> x.sub]
 
-Matches(c, r) ==
-    LET cfg == ToCfg(c, r)
-        outs == Run(cfg, ArgsOf(c))
-    IN /\ Len(outs) = Len(c.obs)
-       /\ \A j \in 1..Len(outs) : Proj(cfg, outs[j]) = ObsOf(c.obs[j])
-       /\ (c.asked => \E j \in 1..Len(outs) : outs[j].asked)
+\* ---- one configuration run of a case as the specification sees it ----------------------
+\* run 1: a fresh build directory; run 2 (c.r2 = <<x>>): `meson setup --reconfigure` of the same directory
+\* with the wrap_mode / force_fallback_for / system of x and the lookups x.as, started with the persistent
+\* cache that run 1 leaves behind according to the specification
+View(cfg, start, as, obs, asked) == [cfg |-> cfg, start |-> start, as |-> as, obs |-> obs, asked |-> asked]
+OutsOf(V) == RunFrom(V.cfg, V.start, V.as, <<>>)
+View1(c, r) == LET cfg == ToCfg(c, r) IN View(cfg, PreState(cfg), ArgsOfSeq(c.as), c.obs, c.asked)
+EndState(V) == LET outs == OutsOf(V) IN IF outs = <<>> THEN V.start ELSE outs[Len(outs)].st
+View2(c, r) ==
+    LET x == c.r2[1]
+        v1 == View1(c, r)
+        cfg == [v1.cfg EXCEPT !.sys = x.sys, !.wm = x.wm, !.fff = SeqToSet(x.fff), !.reuse = r[2]]
+    IN View(cfg, PreStateWith(cfg, NextPC(EndState(v1))), ArgsOfSeq(x.as), x.obs, x.asked)
+HasRun2(c) == Len(c.r2) = 1
 
-\* ---- diagnosis against the pinned reading ------------------------------------------
-StateBefore(cfg, outs, j) == IF j = 1 THEN PreState(cfg) ELSE outs[j - 1].st
+MatchRun(V) ==
+    LET outs == OutsOf(V)
+    IN /\ Len(outs) = Len(V.obs)
+       /\ \A j \in 1..Len(outs) : Proj(V.cfg, outs[j]) = ObsOf(V.obs[j])
+       /\ (V.asked => \E j \in 1..Len(outs) : outs[j].asked)
+Matches(c, r) == MatchRun(View1(c, r)) /\ (HasRun2(c) => MatchRun(View2(c, r)))
+
+\* ---- diagnosis against the pinned readings ------------------------------------------
+StateBefore(V, outs, j) == IF j = 1 THEN V.start ELSE outs[j - 1].st
 FirstDiff(cfg, outs, obs) ==
     LET m == IF Len(outs) < Len(obs) THEN Len(outs) ELSE Len(obs)
         D == { j \in 1..m : Proj(cfg, outs[j]) # ObsOf(obs[j]) }
@@ -56,7 +78,7 @@ ClauseAt(cfg, st, as, obs, j) ==
     IN IF ~(got.kind \in {"sys", "sub", "main", "notfound", "error"}) THEN "Observation"
        ELSE IF st.ovr # None THEN "OverrideWins"
        ELSE IF ForceCfg(cfg) /\ CouldFallBack(cfg, a) /\ got.kind = "sys" /\ st.cache.kind # "sys"
-            THEN "ForcedNeverConsultsSystem"
+            THEN (IF st.pc # None THEN "ForcedIgnoresPersistentCache" ELSE "ForcedNeverConsultsSystem")
        ELSE IF cfg.wm = "nofallback" /\ cfg.fff = {} /\ got.sub # ObsSub(cfg, st.sub)
             THEN "NofallbackNeverConfigures"
        ELSE IF a.af = "false" /\ got.sub # ObsSub(cfg, st.sub) THEN "AllowFallbackFalseNeverConfigures"
@@ -65,36 +87,43 @@ ClauseAt(cfg, st, as, obs, j) ==
        ELSE IF j > 1 /\ as[j] = as[j - 1] /\ <<got.kind, got.v>> # <<obs[j - 1].kind, obs[j - 1].v>>
             THEN "RepeatStable"
        ELSE IF st.cache # None THEN "FirstResultSticks"
+       ELSE IF st.pc # None THEN "PersistentCacheOnlyReusesPositive"
        ELSE "DecisionTable"
 
-Verdict(id, clause, step, expected, got) ==
-    [id |-> id, clause |-> clause, step |-> step, expected |-> expected, got |-> got, ovr |-> "none"]
+Verdict(id, clause, run, step, expected, got) ==
+    [id |-> id, clause |-> clause, run |-> run, step |-> step, expected |-> expected, got |-> got, ovr |-> "none"]
 \* ... with the explicit override the specification has in force after the failing step
 WithOvr(v, o) == [v EXCEPT !.ovr = o.st.ovr.kind]
 NoObs == [kind |-> "", v |-> 0, sub |-> ""]
 
-Judge(c) ==
-    IF \E r \in Readings : Matches(c, r) THEN Verdict(c.id, "ok", 0, NoObs, NoObs)
-    ELSE LET cfg == ToCfg(c, "existing")
-             as == ArgsOf(c)
-             outs == Run(cfg, as)
-             d == FirstDiff(cfg, outs, c.obs)
-         IN IF d = 0 THEN WithOvr(Verdict(c.id, "SystemConsulted", 0, NoObs, NoObs), outs[Len(outs)])
-            ELSE IF d > Len(c.obs)    \* the configuration should have gone on (or the harness lost a line)
-                 THEN Verdict(c.id, "MissingObservation", d, Proj(cfg, outs[d]), NoObs)
-            ELSE IF d > Len(outs)     \* the configuration should have aborted before
-                 THEN Verdict(c.id, "RequiredNotFoundIsError", d - 1, Proj(cfg, outs[d - 1]), ObsOf(c.obs[d - 1]))
-            ELSE WithOvr(Verdict(c.id, ClauseAt(cfg, StateBefore(cfg, outs, d), as, c.obs, d), d,
-                                 Proj(cfg, outs[d]), ObsOf(c.obs[d])), outs[d])
+Diagnose(id, V, run) ==
+    LET outs == OutsOf(V)
+        d == FirstDiff(V.cfg, outs, V.obs)
+    IN IF d = 0 THEN WithOvr(Verdict(id, "SystemConsulted", run, 0, NoObs, NoObs), [st |-> EndState(V)])
+       ELSE IF d > Len(V.obs)    \* the configuration should have gone on (or the harness lost a line)
+            THEN Verdict(id, "MissingObservation", run, d, Proj(V.cfg, outs[d]), NoObs)
+       ELSE IF d > Len(outs)     \* the configuration should have aborted before
+            THEN Verdict(id, "RequiredNotFoundIsError", run, d - 1, Proj(V.cfg, outs[d - 1]), ObsOf(V.obs[d - 1]))
+       ELSE WithOvr(Verdict(id, ClauseAt(V.cfg, StateBefore(V, outs, d), V.as, V.obs, d), run, d,
+                            Proj(V.cfg, outs[d]), ObsOf(V.obs[d])), outs[d])
 
-\* first step at which the configuration may abort (0 = never), under any reading
-AbortStep(c, r) ==
-    LET outs == Run(ToCfg(c, r), ArgsOf(c))
-    IN IF outs # <<>> /\ outs[Len(outs)].res.kind = "error" THEN Len(outs) ELSE 0
+Pinned == <<"existing", "cached">>
+Judge(c) ==
+    IF \E r \in ReadingPairs : Matches(c, r) THEN Verdict(c.id, "ok", 0, 0, NoObs, NoObs)
+    ELSE IF ~(\E r \in ReadingPairs : MatchRun(View1(c, r))) THEN Diagnose(c.id, View1(c, Pinned), 1)
+    ELSE \* run 1 is fine under some reading; judge run 2 under the pinned readings that fit run 1, if any
+         LET R == { r \in ReadingPairs : MatchRun(View1(c, r)) }
+             r0 == IF Pinned \in R THEN Pinned ELSE CHOOSE r \in R : r[2] = "cached"
+         IN Diagnose(c.id, View2(c, r0), 2)
+
+\* first step at which a configuration run may abort (0 = never), under any readings
+AbortOf(V) == LET outs == OutsOf(V)
+              IN IF outs # <<>> /\ outs[Len(outs)].res.kind = "error" THEN Len(outs) ELSE 0
+MinPos(S) == IF S \ {0} = {} THEN 0 ELSE CHOOSE s \in S \ {0} : \A t \in S \ {0} : s <= t
 Predict(c) ==
-    LET S == { AbortStep(c, r) : r \in Readings } \ {0}
-    IN [id |-> c.id, clause |-> IF S = {} THEN "ok" ELSE "aborts",
-        step |-> IF S = {} THEN 0 ELSE CHOOSE s \in S : \A t \in S : s <= t]
+    LET s1 == MinPos({ AbortOf(View1(c, r)) : r \in ReadingPairs })
+        s2 == IF HasRun2(c) /\ s1 = 0 THEN MinPos({ AbortOf(View2(c, r)) : r \in ReadingPairs }) ELSE 0
+    IN [id |-> c.id, clause |-> IF s1 = 0 /\ s2 = 0 THEN "ok" ELSE "aborts", step |-> s1, step2 |-> s2]
 
 Init == i \in 1..Len(Cases) /\ done = FALSE
 Next == /\ ~done
